@@ -35,7 +35,7 @@ def run_blocks(ctx, prefix, rand_n):
     """The multi-record part only (menu blocks + random blocks): `sam variants` on SAM blocks against toPairAlign+variants
     (C11) and against the mutations of the declarative pair (C05); used by the C11 and C05 checks next to their own pass."""
     vecs = kernel.tlc_gen(ctx, "GenC01", "GenC01.cfg" if ctx.quick else "GenC01_thorough.cfg", tag="blocks", timeout=3000)
-    vecs = [v for v in vecs if not v["id"].startswith("one-")]
+    vecs = [v for v in vecs if not v["id"].startswith(("one-", "wrapwin-"))]
     vecs += kernel.rand_vectors(ctx, "sam", rand_n, tag="blocks")
     obs = kernel.run_vectors(ctx, "sam", vecs, tag="blocks", timeout=6000)
     n0 = len(ctx.failures)
